@@ -43,12 +43,12 @@ def ident(ctx, rule, construct, lhs, rhs, loc="", what=""):
         a, b = lhs, rhs
         if isinstance(a, Opaque) or isinstance(b, Opaque):
             return "inconclusive", f"opaque value: {a if isinstance(a, Opaque) else b}"
-        if alg.equal(a, b):
+        verdict, info = alg.decide(a, b)
+        if verdict == "equal":
             return True, ""
-        ok, w = alg.refuted(lift(a), lift(b))
-        if ok:
-            return False, f"{what + ': ' if what else ''}extracted {short(a)}  !=  expected {short(b)}  (witness {w})"
-        return "inconclusive", f"normal forms differ ({short(lift(a) - lift(b))}) but no numeric witness separates them"
+        if verdict == "differ":
+            return False, f"{what + ': ' if what else ''}extracted {short(a)}  !=  expected {short(b)}  (witness {info})"
+        return "inconclusive", f"{info} ({short(lift(a) - lift(b))})"
 
     return ctx.check(rule, construct, f, loc)
 
@@ -66,11 +66,11 @@ def ident_arr(ctx, rule, construct, A, B, loc="", what=""):
             x, y = a[i], b[i]
             if isinstance(x, Opaque) or isinstance(y, Opaque):
                 return "inconclusive", f"opaque cell {i}"
-            if not alg.equal(x, y):
-                ok, w = alg.refuted(lift(x), lift(y))
-                if ok:
-                    return False, f"{what + ': ' if what else ''}cell {list(i)}: extracted {short(x)} != expected {short(y)} (witness {w})"
-                return "inconclusive", f"cell {i}: normal forms differ but no numeric witness separates them"
+            verdict, info = alg.decide(x, y)
+            if verdict == "differ":
+                return False, f"{what + ': ' if what else ''}cell {list(i)}: extracted {short(x)} != expected {short(y)} (witness {info})"
+            if verdict != "equal":
+                return "inconclusive", f"cell {i}: {info}"
         return True, ""
 
     return ctx.check(rule, construct, f, loc)
@@ -124,3 +124,48 @@ def call_public(ctx, I, dotted, *args, **kw):
 def func_calls(node):
     """All ast.Call nodes in a function body (excluding nested defs? no: including)."""
     return [n for n in ast.walk(node) if isinstance(n, ast.Call)]
+
+
+# --------------------------------------------------------------------------- parallel cases
+
+_PAR = {}
+
+
+def _par_entry(i):
+    from ..report import Ctx
+    ctx0, worker, cases = _PAR["ctx"], _PAR["worker"], _PAR["cases"]
+    sub = Ctx(ctx0.prop, ctx0.tier, ctx0.repo, ctx0.program, ctx0.seed)
+    try:
+        worker(sub, cases[i])
+        err = None
+    except Exception as ex:  # reported by the parent as an analysis error
+        import traceback
+        err = f"{type(ex).__name__}: {ex}\n{traceback.format_exc()}"
+    obs = [(o.rule, o.construct, o.status, o.detail, o.loc, o.nontrivial, o.key) for o in sub.obs]
+    return i, obs, sub.counters, sorted(sub.assumptions), sub.samples, err
+
+
+def parallel_cases(ctx, worker, cases, jobs=None):
+    """Run worker(subctx, case) for each case in forked processes; merge obligations in case order."""
+    import multiprocessing as mp
+    import os
+    from ..report import Ob, AnalysisError
+    jobs = jobs or int(os.environ.get("PDXSA_JOBS", "0")) or min(16, os.cpu_count() or 1)
+    _PAR.update(ctx=ctx, worker=worker, cases=cases)
+    if jobs <= 1 or len(cases) <= 1:
+        results = [_par_entry(i) for i in range(len(cases))]
+    else:
+        with mp.get_context("fork").Pool(min(jobs, len(cases))) as pool:
+            results = pool.map(_par_entry, range(len(cases)), chunksize=1)
+    results.sort(key=lambda r: r[0])
+    for i, obs, counters, assumptions, samples, err in results:
+        if err:
+            raise AnalysisError(f"case {cases[i]!r}: {err}")
+        for t in obs:
+            ctx.obs.append(Ob(*t))
+        for k, v in counters.items():
+            ctx.count(k, v)
+        for a in assumptions:
+            ctx.assume(a)
+        for smp in samples:
+            ctx.sample(smp)
